@@ -94,27 +94,9 @@ def bytesVerdict (k : Key) (out : Str) : Option String :=
       else some s!"FAIL [ctrl junk] Ctrl + key {k.keycode} wrote {showStr out}: neither the key, nor a control code, nor nothing"
   else none
 
-def keyVerdict (u : Uni) (k : Key) (md : Modes) (seqs : List PSeq) (dkTok : String) (outTok : String := "") : String :=
-  -- a key release is not a key press: the xterm encoding has no releases, nothing may be written
-  if k.event = Gen.Keys.EventRelease then
-    (if seqs.isEmpty ∧ (outTok = "-" ∨ outTok = "") then "ok"
-     else "FAIL [release forwarded] a key release was written to the child, which reads it as the key pressed again")
-  else
+/-- The ordinary clauses for one (non-release, non-keypad) key event. -/
+def keyVerdictCore (u : Uni) (k : Key) (md : Modes) (seqs : List PSeq) (dkTok : String) (outTok : String := "") : String :=
   let xm := xtermMods k
-  -- keypad keys: the child's keypad mode selects the encoding (F413)
-  let keypad : Option String :=
-    match keypadDue k.keycode md.deckpam md.decckm with
-    | some want =>
-      if xm = 0 ∧ k.text = [] then
-        (match sepInts? "." outTok with
-         | some out => if out = want then some "ok"
-             else some s!"FAIL [keypad] keypad key {k.keycode} (DECKPAM={md.deckpam}): the child must receive {showStr want}, got {showStr out}"
-         | none => none)
-      else none
-    | none => none
-  match keypad with
-  | some v => v
-  | none =>
   -- cursor-key mode selects the encoding
   let cursor : Option String :=
     match lookup k.keycode cursorKeys with
@@ -154,6 +136,37 @@ def keyVerdict (u : Uni) (k : Key) (md : Modes) (seqs : List PSeq) (dkTok : Stri
       | _, _ => s!"FAIL [key round trip] forwarded bytes are not exactly one key sequence ({seqs.length} sequences)"
     else if textDue k ∨ ShiftedDomain k ∨ (xm &&& KeyEnc.ctrlBit ≠ 0 ∧ 32 ≤ k.keycode ∧ k.keycode < Gen.Keys.maxRune ∧ validRune k.keycode) then "ok"
     else "-"
+
+/-- One key event: releases write nothing; a keypad key is judged by the keypad clause (`Spec.keypadJudgedAs`:
+    application mode → exactly the `SS3` code; otherwise as the event of the key it stands for; Begin has reports of
+    its own); every other key by the ordinary clauses. -/
+def keyVerdict (u : Uni) (k : Key) (md : Modes) (seqs : List PSeq) (dkTok : String) (outTok : String := "") : String :=
+  -- a key release is not a key press: the xterm encoding has no releases, nothing may be written
+  if k.event = Gen.Keys.EventRelease then
+    (if seqs.isEmpty ∧ (outTok = "-" ∨ outTok = "") then "ok"
+     else "FAIL [release forwarded] a key release was written to the child, which reads it as the key pressed again")
+  else
+  match keypadJudgedAs k md.deckpam with
+  | some (.inl want) =>
+    (match sepInts? "." outTok with
+     | some out => if out = want then "ok"
+         else s!"FAIL [keypad] keypad key {k.keycode} (DECKPAM={md.deckpam}): the child must receive {showStr want}, got {showStr out}"
+     | none => "-")
+  | some (.inr k') =>
+    let v := keyVerdictCore u k' md seqs dkTok outTok
+    if v.startsWith "FAIL" then s!"FAIL [keypad] keypad key {k.keycode} is the key {k'.keycode} here (DECKPAM={md.deckpam}, mods {k.mods}):{v.drop 4}"
+    else v
+  | none =>
+    if k.keycode = Gen.Keys.KeyKeyPadBegin then
+      let xm := xtermMods k
+      match keypadBeginLegacy xm md.decckm, seqs, parseKey? dkTok with
+      | none, _, _ => "-"
+      | some s, [.plain s'], some dk =>
+        if s' ≠ s then s!"FAIL [keypad] keypad Begin (mods {xm}) is not sent as xterm's report for DECCKM={md.decckm}"
+        else if (md.decckm ∧ xm = 0) ∨ decide (keyArrives u k dk) then "ok"
+        else s!"FAIL [keypad] keypad Begin decodes to {showKey dk}, which does not match key {k.keycode} mods {xm}"
+      | some _, _, _ => s!"FAIL [keypad] keypad Begin: forwarded bytes are not exactly one key sequence ({seqs.length} sequences)"
+    else keyVerdictCore u k md seqs dkTok outTok
 
 def mouseVerdict (md : Modes) (m : Mouse) (seqs : List PSeq) (pmTok : String) : String :=
   if !realMouse m then "-"
